@@ -108,6 +108,16 @@ Tamper(i, t) ==
   /\ fresh' = IF wire[i].k = "way" /\ t # "iv" THEN fresh + 1 ELSE fresh
   /\ UNCHANGED <<sess, chal, unk, got, knows, sids, log>>
 
+(* A third party answers the WHOAREYOU packet i (which it can read: the mask key is the     *)
+(* public id of the challenged node) with a handshake packet of its own making in the name   *)
+(* of the challenged node: own ephemeral key, hence session keys the challenger will derive   *)
+(* too, the node's genuine public record, but an id-signature that is not the node's.         *)
+Forge(i, m) ==
+  /\ i \in 1..Len(wire) /\ wire[i].k = "way" /\ wire[i].t # "iv"
+  /\ wire' = Append(wire, [Pkt("hs", wire[i].dst, wire[i].src, 0, TRUE, wire[i].cid, ~wire[i].rs, m)
+                             EXCEPT !.t = "forged", !.orig = i])
+  /\ UNCHANGED <<sess, chal, unk, got, knows, fresh, sids, cids, log>>
+
 (* ------------------------------- Decode -------------------------------- *)
 Readable(to, p) == /\ p.t = "" /\ sess[to][p.src].sid # 0
                    /\ sess[to][p.src].sid = p.sid /\ sess[to][p.src].init # p.init
@@ -154,6 +164,7 @@ Expire(n) ==
 Next == \/ \E n, p \in Node, m \in Msgs : Len(wire) < MaxWire /\ (SendMsg(n, p, m) \/ SendHandshake(n, p, m))
         \/ \E n, p \in Node : Len(wire) < MaxWire /\ SendWhoareyou(n, p)
         \/ \E i \in 1..Len(wire), t \in {"iv", "ver", "nonce", "src", "idn", "sig", "ct"} : Len(wire) < MaxWire /\ Tamper(i, t)
+        \/ \E i \in 1..Len(wire), m \in Msgs : Len(wire) < MaxWire /\ Forge(i, m)
         \/ \E i \in 1..Len(wire), to, from \in Node : Deliver(i, to, from)
         \/ \E n \in Node : Reset(n) \/ Expire(n)
 
